@@ -188,17 +188,37 @@ def all_actions(n):
     return acts
 
 
-def star_trace(tid, rows, vias):
+def star_trace(tid, rows, vias, kinds=None):
     n = len(rows) // 2
     destab, stab = rows[:n], rows[n:]
     base = pj.rows_to_tableau(destab, stab)
     events = []
-    for k, a in enumerate(all_actions(n)):
+    acts = [a for a in all_actions(n) if kinds is None or a["ev"] in kinds]
+    for k, a in enumerate(acts):
         tab = base.copy()
         _, e = do_event(tab, a, vias[k % len(vias)])
         e.pop("add", None) if False else None
         events.append(e)
     return {"tid": tid, "star": True, "meta": {"kind": "star", "n": n}, "init": pj.tab_obs(base), "events": events}
+
+
+def sampled_tableau_rows(rng, n, depth):
+    """a random n-qubit tableau: random Clifford circuit from |0..0>, built with the real gate functions; the
+    result is only an INPUT (validated by TLC as the trace's initial tableau)."""
+    sfc, tr, CliffordTableau, Stabilizer, MixedStabilizer = _mods()
+    tab = CliffordTableau(n)
+    for _ in range(depth):
+        r = rng.random()
+        if r < 0.4 or n == 1:
+            tab = rng.choice([tr.hadamard_gate, tr.phase_gate])(tab, rng.randrange(n))
+        else:
+            c, t = rng.sample(range(n), 2)
+            tab = tr.cnot_gate(tab, c, t)
+    o = pj.tab_obs(tab)
+    rows = []
+    for k in range(2 * n):
+        rows.append({"s": o["r"][k], "p": [o["x"][k][q] + 2 * o["z"][k][q] for q in range(n)]})
+    return rows
 
 
 def random_event(rng, n, max_n):
@@ -258,6 +278,183 @@ def walk_trace(tid, rng, n0, steps, max_n):
     return {"tid": tid, "star": False, "meta": {"kind": "walk", "n0": n0}, "init": init, "events": events}
 
 
+# ----------------------------------------------------------------------------------------------------------
+# large tableaux: generator-level judging with certificates (Trace_TableauBig)
+def _bits(o):
+    """stabilizer rows of a tab_obs as python ints: bit q = x_q, bit n + q = z_q"""
+    n = o["n"]
+    rows = []
+    for j in range(n, 2 * n):
+        v = 0
+        for q in range(n):
+            if o["x"][j][q]:
+                v |= 1 << q
+            if o["z"][j][q]:
+                v |= 1 << (n + q)
+        rows.append(v)
+    return rows
+
+
+def _expected_bits(rows, n, e):
+    """unsigned expected generators in the SAME order as Expected() of the spec (harness helper: TLC verifies)."""
+    def xb(v, q):
+        return (v >> q) & 1
+
+    def zb(v, q):
+        return (v >> (n + q)) & 1
+
+    def flipx(v, q):
+        return v ^ (1 << q)
+
+    def flipz(v, q):
+        return v ^ (1 << (n + q))
+    out = []
+    ev = e["ev"]
+    if ev == "g1":
+        q = e["a"] - 1
+        for v in rows:
+            if e["g"] == "H":
+                x, z = xb(v, q), zb(v, q)
+                if x != z:
+                    v = flipx(flipz(v, q), q)
+            elif e["g"] in ("P", "PD"):
+                if xb(v, q):
+                    v = flipz(v, q)
+            out.append(v)
+        return out
+    if ev == "g2":
+        c, t = e["a"] - 1, e["b"] - 1
+        for v in rows:
+            if e["g"] == "CY" and xb(v, t):
+                v = flipz(v, t)
+            if e["g"] == "CZ":
+                if xb(v, t):
+                    v = flipz(v, c)
+                if xb(v, c):
+                    v = flipz(v, t)
+            else:
+                if xb(v, c):
+                    v = flipx(v, t)
+                if zb(v, t):
+                    v = flipz(v, c)
+                if e["g"] == "CY" and xb(v, t):
+                    v = flipz(v, t)
+            out.append(v)
+        return out
+    if ev == "swap":
+        a, b = e["a"] - 1, e["b"] - 1
+        for v in rows:
+            xa, xb_, za, zb_ = xb(v, a), xb(v, b), zb(v, a), zb(v, b)
+            if xa != xb_:
+                v = flipx(flipx(v, a), b)
+            if za != zb_:
+                v = flipz(flipz(v, a), b)
+            out.append(v)
+        return out
+    if ev == "measz":
+        q = e["a"] - 1
+        anti = [i for i, v in enumerate(rows) if xb(v, q)]
+        if not anti:
+            return list(rows)
+        p = anti[0]
+        for i, v in enumerate(rows):
+            if i == p:
+                out.append(1 << (n + q))
+            elif i in anti:
+                out.append(v ^ rows[p])
+            else:
+                out.append(v)
+        return out
+    if ev == "insert":
+        k = e["k"] - 1
+        def ins(v):
+            x = v & ((1 << n) - 1)
+            z = v >> n
+            def sh(w):
+                return (w & ((1 << k) - 1)) | ((w >> k) << (k + 1))
+            return sh(x) | (sh(z) << (n + 1))
+        return [ins(v) for v in rows] + [1 << (n + 1 + k)]
+    raise ValueError(ev)
+
+
+def _solve(basis, targets):
+    """express each target as an XOR of basis rows: list of sorted 1-based index lists (None if impossible)"""
+    piv = {}
+    for i, v in enumerate(basis):
+        combo = 1 << i
+        while v:
+            hb = v.bit_length() - 1
+            if hb in piv:
+                pv, pc = piv[hb]
+                v ^= pv
+                combo ^= pc
+            else:
+                piv[hb] = (v, combo)
+                break
+    res = []
+    for t in targets:
+        combo = 0
+        v = t
+        while v:
+            hb = v.bit_length() - 1
+            if hb not in piv:
+                break
+            pv, pc = piv[hb]
+            v ^= pv
+            combo ^= pc
+        res.append(None if v else [i + 1 for i in range(len(basis)) if (combo >> i) & 1])
+    return res
+
+
+def big_walk(tid, rng, n, steps, full_every):
+    sfc, tr, CliffordTableau, Stabilizer, MixedStabilizer = _mods()
+    np.random.seed(rng.randint(0, 2 ** 31 - 1))
+    tab = CliffordTableau(n)
+    init = pj.tab_obs(tab)
+    events = []
+    cur = init
+    for step in range(steps):
+        nn = tab.n_qubits
+        r = rng.random()
+        q = rng.randint(1, nn)
+        if step < nn // 2:
+            a = {"ev": "g1", "g": "H", "a": q} if step % 2 == 0 else None
+            if a is None:
+                c, t = rng.sample(range(1, nn + 1), 2)
+                a = {"ev": "g2", "g": "CNOT", "a": c, "b": t}
+        elif r < 0.35:
+            a = {"ev": "g1", "g": rng.choice(G1), "a": q}
+        elif r < 0.65:
+            c, t = rng.sample(range(1, nn + 1), 2)
+            a = {"ev": "g2", "g": rng.choice(G2), "a": c, "b": t}
+        elif r < 0.85:
+            a = {"ev": "measz", "a": q, "d": rng.choice([0, 1, 2]), "out": 0}
+        elif r < 0.93:
+            a = {"ev": "swap", "a": q, "b": rng.randint(1, nn)}
+        else:
+            a = {"ev": "insert", "k": rng.randint(1, nn + 1)}
+        pre_rows = _bits(cur)
+        new, e = do_event(tab, a, "fn")
+        e["full"] = (step % full_every == 0) or step == steps - 1
+        if e["post"]["err"] == "":
+            exp = _expected_bits(pre_rows, nn, e)
+            n2 = e["post"]["n"]
+            certs = _solve(exp, _bits(e["post"]))
+            e["cert"] = [c if c is not None else [] for c in certs]
+            if e["ev"] == "measz":
+                oc = _solve(pre_rows, [1 << (nn + e["a"] - 1)])[0]
+                e["ocert"] = oc if oc is not None else []
+            cur = e["post"]
+            tab = new
+        else:
+            e["cert"] = []
+            e["ocert"] = []
+        events.append(e)
+        if e["post"]["err"]:
+            break
+    return {"tid": tid, "meta": {"kind": "big-walk", "n": n}, "init": init, "events": events}
+
+
 def enumerate_tableaux(ctx, n):
     cfg = f"CONSTANT N = {n}\nSPECIFICATION Spec\nINVARIANT Paired\nINVARIANT StabValid\nINVARIANT Dump\n"
     r = ctx.mc("MC_TabRows", cfg, tag=f"N{n}", workers=1, expect_distinct={1: 24, 2: 11520}.get(n))
@@ -286,6 +483,16 @@ def run(ctx):
     for k in pick:
         tid += 1
         traces.append(star_trace(tid, tabs2[k], vias))
+    # sampled 3- and 4-qubit tableaux: every API action from each (deterministic outcomes that are products of
+    # several generators only exist from 3 qubits on)
+    # (a determined outcome whose +/- Z is a product of generators with an intrinsic sign shows up in ~0.6 % of
+    #  (tableau, qubit) pairs at n = 3: many tableaux with the measuring actions only, a few with every action)
+    meas_kinds = {"measz", "reset", "remove", "ptrace"}
+    for n, cnt_meas, cnt_all in ((3, 900, 12), (4, 250, 6)) if ctx.quick else ((3, 20000, 800), (4, 5000, 300), (5, 600, 40)):
+        for k in range(cnt_meas + cnt_all):
+            tid += 1
+            traces.append(star_trace(tid, sampled_tableau_rows(ctx.rng, n, ctx.rng.randint(4, 30)), vias,
+                                     kinds=None if k < cnt_all else meas_kinds))
     ctx.extra["enumerated_tableaux"] = {"N1": len(tabs1), "N2": len(tabs2), "N2_replayed": len(list(pick))}
     ctx.extra["actions_per_tableau"] = {"N1": len(all_actions(1)), "N2": len(all_actions(2))}
     ctx.judge("Trace_Tableau", traces, label="G: every API action from every enumerated tableau")
@@ -296,4 +503,15 @@ def run(ctx):
         tid += 1
         walks.append(walk_trace(tid, ctx.rng, n0, steps, max_n=5 if ctx.quick else 6))
     ctx.judge("Trace_Tableau", walks, label="J: random walks over the tableau API")
-    ctx.assumptions.append("group-level judging for n <= 6; reset/remove of an entangled qubit accepted for SOME possible outcome")
+    # large tableaux, generator level
+    big = []
+    plan = [(24, 60, 1), (64, 40, 1)] if ctx.quick else [(24, 200, 1)] * 6 + [(64, 120, 1)] * 4 + [(200, 130, 20)] * 2
+    for n, steps, full_every in plan:
+        tid += 1
+        big.append(big_walk(tid, ctx.rng, n, steps, full_every))
+    ctx.judge("Trace_TableauBig", big, label="J: large tableaux (n = 24 .. 200) judged at generator level with certificates",
+              xmx="6g", shards=len(big))
+    ctx.extra["big_walk_sizes"] = sorted({n for n, _, _ in plan})
+    ctx.assumptions.append("group-level judging for n <= 6, generator-level judging with TLC-verified certificates for "
+                           "n = 24 .. 200 (gates, swap, Z-measurement, insert); reset/remove of an entangled qubit accepted "
+                           "for SOME possible outcome")
